@@ -26,6 +26,7 @@ THEOREMS = [
     "LoadTree.C14_restored", "LoadTree.C14_restored_env", "LoadTree.C14_restored_clean", "LoadTree.C14_calls",
     "LoadTree.C14_init_once", "LoadTree.C14_init_at_most_once", "LoadTree.C14_init_order", "LoadTree.C14_kwargs",
     "LoadTree.C14_kwargs_ops", "LoadTree.C14_kwargs_pinned_false", "LoadTree.C14_unbalanced_false",
+    "LoadTree.C14_procs_see_start", "LoadTree.C14_procs_see_clean", "LoadTree.C14_init_sees_clean_false",
 ]
 CLEAN = [0, False, False, 0]
 
